@@ -114,6 +114,8 @@ def bound_text(tier):
     t = TIER_N[tier]
     s = ("14 vendors x all in-domain forests with <= %d nodes (routeros: <= %d), depth <= %d, full alphabets "
          "(5-6 rows), complete" % (t["default"], t["routeros"], MAX_DEPTH))
+    s += ("; H: all ordered pairs of vendors in a fresh process each (first: forests <= %d nodes, second: stages 1-4 on "
+          "forests <= %d nodes)" % (H_FIRST_N, H_SECOND_N[tier]))
     if tier == "thorough":
         s += "; plus all in-domain forests with exactly %d nodes (routeros: %d) over reduced alphabets (3-4 rows)" % (
             N_EXT["default"], N_EXT["routeros"])
